@@ -37,6 +37,7 @@ int main(int argc, char** argv) {
     hz::for_each_case(args, [&](size_t idx, const std::string& line) {
         mj::Value c = mj::parse(line); ++ncases;
         const std::string& e = c["e"].str();
+        if (e == "dblb") { uint64_t w = ((uint64_t)c["sign"].as_int() << 63) | ((uint64_t)c["exp"].as_int() << 52) | ((uint64_t)c["hi"].as_int() << 26) | (uint64_t)c["lo"].as_int(); double d; memcpy(&d, &w, 8); dbl_line(d); return; }
         mj::Value t = hz::rec("trace"); t.set("idx", (int64_t)idx); t.set("e", e);
         try {
             if (e == "arith") {
